@@ -174,6 +174,11 @@ def replaceFilesV (before : Bool) (sch : Sched) (s : St) (files : List File) : R
 /-- `ManagerImpl.ReplaceFiles` as it is in /repo now. -/
 def replaceFiles (sch : Sched) (s : St) (files : List File) : Res := replaceFilesV true sch s files
 
+/-- a history of replacements, each with its own file set and fault schedule -/
+def runCalls (s : St) : List (Sched × List File) → St
+  | [] => s
+  | (sch, F) :: r => runCalls (replaceFiles sch s F).st r
+
 /-! ### ClearFolders -/
 
 /-- `dirChars rest seen acc`: `seen` = characters consumed so far, `acc` = prefix before the last '/'. -/
